@@ -55,7 +55,7 @@ PROP = {
         {'name': 'arbitrator',
          'pkg': 'pkg/descheduler/controllers/migration/arbitrator',
          'files': ['C16/c16_arbitrator_test.go'],
-         'tests': [{'run': 'TestVerifC16ArbitrationRounds', 'quick': 100, 'quick_shards': 4, 'thorough': 1200, 'steps': 40,
+         'tests': [{'run': 'TestVerifC16ArbitrationRounds', 'quick': 300, 'quick_shards': 4, 'thorough': 1200, 'steps': 50,
                     'shrinktime': '15s'}]},
     ],
     'manifest': {
